@@ -124,7 +124,11 @@ def gen_allow(rng: Rng, family: str, names: list) -> dict:
         lst = [rng.pick(universe)]
     rng.shuffle(lst)
     lst = list(dict.fromkeys(lst))
-    return {"how": rng.pick(["algorithms", "registry-fresh"]), "list": lst}
+    out = {"how": rng.pick(["algorithms", "registry-fresh"]), "list": lst}
+    if out["how"] == "registry-fresh" and family == "jws" and rng.chance(0.3):
+        out["plain_class"] = True
+        out["strict"] = rng.chance(0.5)
+    return out
 
 
 def gen_name(rng: Rng, pool: list):
@@ -216,6 +220,10 @@ def _kw(node: Node, allow: dict, family: str, r7797: bool = False) -> dict:
         return {"algorithms": list(allow["list"])}
     if how == "registry-fresh":
         cls = JWERegistry if family == "jwe" else (R7797 if r7797 else JWSRegistry)
+        if r7797 and allow.get("plain_class"):
+            # a caller may hand the RFC 7797 functions a plain jws.JWSRegistry: whatever that does about the b64 header,
+            # its allow-list must not be lost
+            return {"registry": JWSRegistry(algorithms=list(allow["list"]), strict_check_header=allow.get("strict", True))}
         return {"registry": cls(algorithms=list(allow["list"]))}
     if how == "registry-shared":
         fam = "jwe" if family == "jwe" else ("jws7797" if r7797 else "jws")
@@ -452,6 +460,8 @@ def judge(d: dict, state_before: dict, outcome) -> tuple | None:
     want, bad = expectation(d, state_before)
     sig_op = d["op"]
     if want == "ok":
+        if status == "exc" and d["allow"].get("plain_class") and d["op"].startswith("7797."):
+            return None      # a plain registry does not know the b64 header: refusal for that reason is legitimate
         if status == "exc":
             # combinations that are refused for reasons other than the allow-list are not generated, except these:
             if exc == "InvalidEncryptionAlgorithmError" or (exc == "ConflictAlgorithmError"):
@@ -470,6 +480,8 @@ def judge(d: dict, state_before: dict, outcome) -> tuple | None:
         return ("%s:used-disallowed" % sig_op, "call succeeded although %r is not allowed by %r" % (bad, d["allow"]))
     if exc == "BadSignatureError" and "none" in d.get("algs", []):
         return None     # an allowed 'none' signature failed first; the call failed before any result was returned
+    if d["allow"].get("plain_class") and d["op"].startswith("7797.") and exc == "ValueError" and "b64" in str(detail):
+        return None     # plain registry at the RFC 7797 entry: the unknown b64 header is refused before the algorithm is looked at
     if all(isinstance(b, str) for b in bad) and all(isinstance(n, str) for n in _names(d)) and exc != "UnsupportedAlgorithmError":
         return ("%s:wrong-error:%s" % (sig_op, exc), "refused %r with %s instead of the unsupported-algorithm error: %s" % (bad, exc, detail))
     return None
